@@ -1151,6 +1151,45 @@ fn c05(r: &mut Rng, fonts: &[FontInfo], n: u64, tr: &mut Option<std::fs::File>) 
         }
         cnt.bump("cross_face_histories");
     }
+    // (a3) contexts along a history, on every font that maps a dual-joining letter of a joining script: a step WITH
+    //      pre-/post-context followed by steps WITHOUT (text through push_str, which does not touch the contexts)
+    for fi in fonts.iter() {
+        let Some(face) = Face::from_slice(&fi.data, 0) else { continue };
+        for c in [0x0628u32, 0x0644, 0x0712, 0x07CA, 0x1820, 0x1E922, 0x0840] {
+            if !fi.chars.contains(&c) {
+                continue;
+            }
+            let mk = |n: usize, pre: bool, post: bool| Req { text: (0..n).map(|i| (c, i as u32)).collect(), pre: if pre { vec![c] } else { vec![] }, post: if post { vec![c] } else { vec![] }, flags: 0, ..Default::default() };
+            let reqs = vec![mk(2, true, true), mk(2, false, false), mk(1, true, false), mk(1, false, false), mk(3, false, true), mk(2, false, false)];
+            let res = catch(std::panic::AssertUnwindSafe(|| {
+                let mut ub = UnicodeBuffer::new();
+                let mut outs = Vec::new();
+                for rq in &reqs {
+                    ub = fill_push_str(rq, ub);
+                    let gb = rustybuzz::shape(&face, &[], ub);
+                    outs.push(collect(&face, &gb));
+                    ub = gb.clear();
+                }
+                outs
+            }));
+            let Ok(outs) = res else { continue };
+            for (k, rq) in reqs.iter().enumerate() {
+                cnt.evals += 1;
+                cnt.nontrivial += 1;
+                let fresh = catch(std::panic::AssertUnwindSafe(|| {
+                    let gb = rustybuzz::shape(&face, &[], fill_push_str(rq, UnicodeBuffer::new()));
+                    collect(&face, &gb)
+                }));
+                if let Ok(f) = fresh {
+                    if f != outs[k] {
+                        cnt.fail("C05", "recycled-buffer-keeps-context", &fi.path, rq, &format!("step={} of the context history on U+{:04X} fresh={} recycled={}", k, c, fmt_g(&f), fmt_g(&outs[k])));
+                        break;
+                    }
+                }
+            }
+            cnt.bump("context_histories");
+        }
+    }
     // (b) threads sharing Face and ShapePlan
     let nthreads = 8;
     for round in 0..(n / 20).max(4) {
@@ -1578,13 +1617,16 @@ fn c01gen(tr: &mut Option<std::fs::File>) {
                         f.gdef = Some(Gdef { glyph_classes: vec![(1, 1), (2, 2), (3, 3), (4, 1), (5, 3)], mark_attach_classes: vec![], mark_glyph_sets: vec![] });
                     }
                     let lig = SubstSubtable::Ligature { coverage: Coverage::Glyphs(vec![1]), ligature_sets: vec![vec![Ligature { glyph: 2, components: vec![1; n - 1] }]] };
-                    f.gsub = Some(Layout::single_feature(*b"liga", vec![Lookup::one(lig)]));
+                    // with GDEF the lookup ignores marks, so a mark typed between the components ends up inside the ligature
+                    f.gsub = Some(Layout::single_feature(*b"liga", vec![Lookup::with_flags(if gdef { lookup_flags::IGNORE_MARKS } else { 0 }, vec![lig])]));
                     let name = format!("ligature-{}-components-marks{}{}", n, if outlines { "-glyf" } else { "" }, if gdef { "-gdef" } else { "" });
                     for marks in [vec![0x0301u32], vec![0x0301, 0x0323], vec![0x0323, 0x0301, 0x0301]] {
                         for d in [None, Some(Direction::RightToLeft), Some(Direction::TopToBottom)] {
                             let mut text: Vec<(u32, u32)> = (0..n).map(|i| (0x61u32, i as u32)).collect();
-                            // a mark in the middle of the components and marks after the last one
-                            text.insert(n / 2, (0x0301, (n / 2) as u32));
+                            // a mark in the middle of the components (only when the lookup skips marks) and marks after the last one
+                            if gdef {
+                                text.insert(n / 2, (0x0301, (n / 2) as u32));
+                            }
                             for (j, m) in marks.iter().enumerate() {
                                 text.push((*m, (n + j) as u32));
                             }
